@@ -9,7 +9,7 @@ import lib_C18 as L
 ID = "C18"
 THEOREM = ("Ufo2ft.C18.C18_all / C18_classes / C18_classes_font / C18_classes_disjoint / C18_carets / "
            "C18_carets_font / C18_carets_var_partial / caretValueOld_eq / C18_curs / C18_curs_flag / C18_ltr_extras / C18_ltr_extras_mem / C18_seq / runSeq_eq / "
-           "C18_seq_independent / C18_user_left_alone / gdefTodoOld_eq / C18_unnamed_anchor_ignored / "
+           "C18_dir_set / C18_dir_seeded / C18_dir_neutral_free / closeGlyphs_grounded / C18_seq_independent / C18_user_left_alone / gdefTodoOld_eq / C18_unnamed_anchor_ignored / "
            "C18_quantize / C18_anchor / C18_categories / C18_pairs / holdsPairs_unique")
 N = {"quick": 420, "thorough": 20000}
 RULE = ("random small fonts (Latin, Arabic, Hebrew, Greek, common-script and unencoded glyphs; ufoLib2/defcon; TTF/OTF) with "
@@ -33,7 +33,8 @@ RULE = ("random small fonts (Latin, Arabic, Hebrew, Greek, common-script and une
         "coordinates of the compiled LigCaretList.  Unit streams call _getAnchor/quantize, OpenTypeCategories.load and _getCursiveAnchorPairs directly.  "
         "non-trivial = the font has a class-bearing exported glyph or a caret glyph, and at least one cursive pair.")
 ASSUMED = [
-    "which code points are left-to-right and the set classifyGlyphs(cmap, GSUB)['LTR'] (cmap classification + fontTools' GSUB closure, WITHOUT the designspace rule substitutions) are inputs of the model, computed by the harness with ufo2ft.util.classifyGlyphs/unicodeScriptDirection on the compiled cmap and GSUB; the rule substitutions are taken from the designspace the harness built and applied by the model (applyExtras)",
+    "neutral-context stream: fontTools' subsetter closure over the compiled GSUB equals the closure over the rules the harness wrote, read as 'all glyphs of the input sequence and context present -> outputs join' (single, multiple, ligature, chaining-context format 3 with one glyph per position; measured on every case of the stream: the observed sets must equal the model's); unicodeScriptDirection per code point is an input",
+    "all other streams: which code points are left-to-right and the set classifyGlyphs(cmap, GSUB)['LTR'] (cmap classification + fontTools' GSUB closure, WITHOUT the designspace rule substitutions) are inputs of the model, computed by the harness with ufo2ft.util.classifyGlyphs/unicodeScriptDirection on the compiled cmap and GSUB; the rule substitutions are taken from the designspace the harness built and applied by the model (applyExtras)",
     "feaLib compiles the emitted GlyphClassDef / LigatureCaretByPos / pos cursive statements faithfully (modelled as fontClasses/fontCarets and compared with the compiled tables on every case, not proved)",
     "the glyph objects of the feature compiler's glyph set carry the UFO glyph's anchors (no anchor-changing filter is generated)",
     "quantisation steps are positive; x/q and x+0.5 are exact in double arithmetic on the generated grids",
@@ -239,7 +240,7 @@ LTR_CPS = (0x61, 0x62, 0x63, 0x3B1, 0x915)
 
 
 def _fc(c):
-    return {k: c[k] for k in ("fd", "blocks", "gsub", "userCurs")}
+    return {k: c[k] for k in ("fd", "blocks", "gsub", "userCurs", "gsubx") if k in c}
 
 
 def _derive_master(rng, fc, mode):
@@ -309,6 +310,103 @@ def _force_rule_alternate(rng, fc):
     if fc["userCurs"] == "plain":
         fc["userCurs"] = None
     return [[left["name"], right["name"]]]
+
+
+NEUTRALS = [("period", 0x2E), ("space", 0x20), ("zero", 0x30), ("hyphen", 0x2D), ("zwj", 0x200D)]
+LTR_LETTERS = [("a", 0x61), ("b", 0x62), ("c", 0x63), ("alpha", 0x3B1), ("uni0915", 0x915)]
+
+
+def _rule_need(r):
+    return list(r["back"]) + list(r["in"]) + list(r["ahead"])
+
+
+def gen_ctx(rng, mode):
+    """a font whose GSUB reaches an unencoded glyph with unsuffixed cursive anchors from a left-to-right letter ONLY
+    through a rule that has a script-neutral glyph (period, space, digit, hyphen, ZWJ) in its input or context: a
+    ligature with a neutral component, or a contextual substitution with a neutral glyph as backtrack/lookahead; plus
+    random other rules (single, multiple, ligature, contextual; chains; right-to-left and neutral sources)"""
+    c = gen_font(rng, mode, set())
+    fd = c["fd"]
+    gl = fd["glyphs"]
+    fd["lib"].pop("public.skipExportGlyphs", None)
+    gl[:] = [g for g in gl if g["name"] != ".notdef"]
+    c["gsub"] = []
+    if c["userCurs"] == "plain":
+        c["userCurs"] = None
+    for b in c["blocks"]:      # the blocks may name a removed .notdef
+        if b["classdef"]:
+            b["classdef"] = [[n for n in cl if n != ".notdef"] for cl in b["classdef"]]
+        if b["carets"]:
+            b["carets"] = [e for e in b["carets"] if e[0] != ".notdef"] or None
+            if b["carets"] is None:
+                b["caretKind"] = None
+
+    def have(nm):
+        return next((g for g in gl if g["name"] == nm), None)
+
+    def add(nm, u):
+        g = have(nm)
+        if g is None:
+            g = {"name": nm, "width": 500, "unicodes": [] if u is None else [u], "contours": TRI, "components": [], "anchors": []}
+            gl.append(g)
+        return g
+    letters = [g for g in gl if g["unicodes"] and g["unicodes"][0] in LTR_CPS]
+    if not letters or rng.random() < 0.3:
+        letters.append(add(*rng.choice(LTR_LETTERS)))
+    neutrals = [g for g in gl if g["unicodes"] and g["unicodes"][0] in (0x2E, 0x20, 0x30, 0x2D, 0x200D)]
+    if not neutrals or rng.random() < 0.3:
+        neutrals.append(add(*rng.choice(NEUTRALS)))
+    sfx = rng.choice(["", "", "", ".1", ".2", ".x_y"])
+    rules = []
+    used_targets = set()
+    for k in range(rng.choice([1, 1, 2, 3])):
+        left, neu = rng.choice(letters), rng.choice(neutrals)
+        form = rng.choice(["liga", "liga-first", "ahead", "back", "both", "chain"])
+        nm = next(n for n in (left["name"] + rng.choice([".fina", ".init", ".swash"]), left["name"] + "_" + neu["name"],
+                              "t%d.alt" % k) if have(n) is None)
+        tgt = add(nm, None)
+        sides = rng.choice([["entry"], ["exit"], ["entry", "exit"]])
+        for side in sides:
+            tgt["anchors"].append([side + sfx, rng.randrange(-50, 700), rng.randrange(-50, 300)])
+        used_targets.add(nm)
+        if form == "liga":
+            rules.append({"back": [], "in": [left["name"], neu["name"]], "ahead": [], "out": [nm]})
+        elif form == "liga-first":
+            rules.append({"back": [], "in": [neu["name"], left["name"]], "ahead": [], "out": [nm]})
+        elif form == "ahead":
+            rules.append({"back": [], "in": [left["name"]], "ahead": [neu["name"]], "out": [nm]})
+        elif form == "back":
+            rules.append({"back": [neu["name"]], "in": [left["name"]], "ahead": [], "out": [nm]})
+        elif form == "both":
+            rules.append({"back": [rng.choice(letters)["name"]], "in": [left["name"]], "ahead": [neu["name"]], "out": [nm]})
+        else:       # two steps: a plain alternate of the letter, then the neutral-context rule from the alternate
+            mid = add(next(n for n in (left["name"] + ".alt", left["name"] + ".ss01", "m%d.alt" % k) if have(n) is None or not have(n)["unicodes"]), None)
+            used_targets.add(mid["name"])
+            rules.append({"back": [], "in": [left["name"]], "ahead": [], "out": [mid["name"]]})
+            rules.append({"back": [], "in": [mid["name"]], "ahead": [neu["name"]], "out": [nm]})
+    for side in ("entry", "exit"):      # the pair must be present in the font
+        if not any(a[0] == side + sfx for g in gl for a in g["anchors"]):
+            rng.choice(gl)["anchors"].append([side + sfx, rng.randrange(-50, 700), rng.randrange(-50, 300)])
+    names = [g["name"] for g in gl]
+    for _ in range(rng.choice([0, 0, 1, 2, 3])):     # any other rules
+        form = rng.choice(["single", "single", "mult", "liga", "ctx"])
+        a, b, x, y = (rng.choice(names) for _ in range(4))
+        if form != "single" and rng.random() < 0.5:
+            x = rng.choice(neutrals)["name"]
+        outs = [n for n in names if n not in used_targets or rng.random() < 0.2] or names
+        o = rng.choice(outs)
+        if form == "single":
+            r = {"back": [], "in": [a], "ahead": [], "out": [o]}
+        elif form == "mult":
+            r = {"back": [], "in": [a], "ahead": [], "out": [o, rng.choice(outs)]}
+        elif form == "liga":
+            r = {"back": [], "in": [a, x], "ahead": [], "out": [o]}
+        else:
+            r = {"back": [y] if rng.random() < 0.4 else [], "in": [a], "ahead": [x], "out": [o]}
+        rules.insert(rng.randrange(len(rules) + 1), r)
+    c["gsubx"] = rules
+    c["otf"] = rng.random() < 0.25
+    return c
 
 
 def gen_multi(rng, mode):
@@ -388,6 +486,8 @@ def gen(rng, n, mode):
         yield gen_font(rng, mode, findings)
     for i in range(max(40, n // 6)):
         yield gen_multi(rng, mode)
+    for i in range(max(36, n // 10)):
+        yield gen_ctx(rng, mode)
     for i in range(max(16, n // 25)):
         yield gen_var(rng, mode, findings)
     for i in range(max(20, n // 6)):
@@ -495,6 +595,14 @@ def _features_text(case, exported):
         parts.append("table GDEF {\n" + "\n".join("    " + l for l in lines) + "\n} GDEF;")
     if case["gsub"]:
         parts.append("feature calt {\n" + "\n".join("    sub %s by %s;" % (a, b) for a, b in case["gsub"]) + "\n} calt;")
+    for k, r in enumerate(case.get("gsubx") or []):
+        # one feature block (hence one lookup) per rule
+        tag = ("calt", "liga", "salt", "rlig", "ss01", "clig")[k % 6]
+        if r["back"] or r["ahead"]:
+            body = "sub %s by %s;" % (" ".join(r["back"] + [g + "'" for g in r["in"]] + r["ahead"]), " ".join(r["out"]))
+        else:
+            body = "sub %s by %s;" % (" ".join(r["in"]), " ".join(r["out"]))
+        parts.append("feature %s {\n    %s\n} %s;" % (tag, body, tag))
     if case["userCurs"] == "plain":
         parts.append("feature curs {\n    pos cursive %s <anchor %d 0> <anchor NULL>;\n} curs;" % (exported[0], L.SENTINEL))
     elif case["userCurs"] == "marker":
@@ -538,6 +646,7 @@ def _observe(fc, fd, exported, n_user, tt, fea_text, err, quant, extras, tags):
     glyphs = [[n, [[a[0], rat(a[1]), rat(a[2])] for a in src[n]["anchors"]] if n in src else []] for n in order]
     cats = fd.get("lib", {}).get("public.openTypeCategories", {})
     any_ltr, ltr = False, None
+    closure, dir_obs = None, None
     if tt is not None:
         from ufo2ft.util import classifyGlyphs, unicodeScriptDirection
         cmap = tt.getBestCmap() or {}
@@ -546,6 +655,17 @@ def _observe(fc, fd, exported, n_user, tt, fea_text, err, quant, extras, tags):
             # cmap classification + GSUB closure only: the designspace rule substitutions are applied by the model
             d = classifyGlyphs(unicodeScriptDirection, cmap, tt.get("GSUB"))
             ltr = sorted(d["LTR"]) if "LTR" in d else None
+        if fc.get("gsubx") is not None:
+            # the rules the harness wrote + the cmap classification: the model computes the left-to-right set itself
+            from ufo2ft.util import closeGlyphsOverGSUB
+            rules = [[[a], [b]] for a, b in fc["gsub"]] + [[_rule_need(r), list(r["out"])] for r in fc["gsubx"]]
+            ltr0 = sorted({g for uv, g in cmap.items() if unicodeScriptDirection(uv) == "LTR"})
+            neu0 = sorted({g for uv, g in cmap.items() if unicodeScriptDirection(uv) is None})
+            closure = {"rules": rules, "ltr0": ltr0, "neutral0": neu0}
+            nobs = set(neu0)
+            if "GSUB" in tt and nobs:
+                closeGlyphsOverGSUB(tt["GSUB"], nobs)
+            dir_obs = {"ltr": ltr or [], "neutral": sorted(nobs)}
     ucls, ucar = [], []
     for b in fc["blocks"]:
         if b["classdef"] is not None:
@@ -558,6 +678,8 @@ def _observe(fc, fd, exported, n_user, tt, fea_text, err, quant, extras, tags):
            "userClasses": sorted(ucls), "userCarets": sorted(ucar),
            "quant": None if quant is None else rat(quant), "anyLtrCp": any_ltr, "ltr": ltr,
            "extras": [list(e) for e in extras], "cursTodo": fc["userCurs"] != "plain"}
+    if closure is not None:
+        inp["closure"] = closure
     tags = list(tags) + ["quant" if quant is not None else "noquant", "userblocks:%d" % len(fc["blocks"]),
                          "usercurs:%s" % fc["userCurs"], "skip" if skip else "noskip"]
     if err is None:
@@ -576,6 +698,27 @@ def _observe(fc, fd, exported, n_user, tt, fea_text, err, quant, extras, tags):
            "font": {"classes": L.font_classes(tt), "carets": L.font_carets(tt)},
            "curs": [[bool(f & 1), recs] for f, recs, _ in lookups],
            "flags": [f for f, _, _ in lookups], "inCurs": all(c for _, _, c in lookups)}
+    if closure is not None:
+        obs["dir"] = dir_obs
+        tags.append("gsub-context-rules")
+        # distribution: a glyph with unsuffixed-pair cursive anchors that is left-to-right only because script-neutral glyphs
+        # take part in the closure (reference closure over the written rules, with and without the neutral glyphs)
+        def close_(s0):
+            s0 = set(s0)
+            while True:
+                add_ = {o for need, out in closure["rules"] if set(need) <= s0 for o in out} - s0
+                if not add_:
+                    return s0
+                s0 |= add_
+        nclosed = close_(closure["neutral0"])
+        with_n = close_(set(closure["ltr0"]) | nclosed) - nclosed
+        without_n = close_(closure["ltr0"])
+        only = with_n - without_n
+        if only:
+            tags.append("ltr-through-neutral-context")
+        if any_ltr and any(n in only and any(a[0] and (a[0] in ("entry", "exit") or a[0].startswith(("entry.", "exit."))) and
+                                             not a[0].endswith((".LTR", ".RTL")) for a in al) for n, al in glyphs):
+            tags.append("curs-ltr-through-neutral-context")
     # distribution
     tags.append("classdef:" + ("user" if any(b[0] for b in inp["blocks"]) else "emitted" if cd is not None and any(cd) else
                                "emitted-empty" if cd is not None else "none"))
@@ -912,6 +1055,9 @@ def agree(req, rep):
         return m.get("err") == o.get("err")
     if m["fea"] != o["fea"] or m["curs"] != o["curs"]:
         return False
+    if m.get("dir") is not None and (o.get("dir") is None or m["dir"]["neutral"] != o["dir"]["neutral"] or
+                                     (req["in"]["anyLtrCp"] and m["dir"]["ltr"] != o["dir"]["ltr"])):
+        return False
     if m["font"]["classes"] is not None and sorted(m["font"]["classes"]) != o["font"]["classes"]:
         return False
     if m["font"]["carets"] is not None and sorted(m["font"]["carets"]) != o["font"]["carets"]:
@@ -956,7 +1102,7 @@ def classify_failure(res):
     parts = model.get("_parts")
     if not parts:
         return None
-    bad = sorted(k for k in ("classesFea", "caretsFea", "classesFont", "caretsFont", "curs") if not parts[k])
+    bad = sorted(k for k in ("classesFea", "caretsFea", "classesFont", "caretsFont", "curs", "dir") if not parts.get(k, True))
     # the static shape repaired in ufo2ft (kind "fixed" in known_findings.json): named whether or not the model agrees - the
     # model follows the repaired code, so a recurrence disagrees with it - and therefore always a VIOLATION
     if bad and set(bad) <= {"caretsFea", "caretsFont"} and parts["caretsIfFirstNamed"]:
@@ -992,7 +1138,11 @@ def _shrink_fc(fc, keep=(), glyph_removal=True):
     fd = fc["fd"]
     gl = fd["glyphs"]
     used = {n for b in fc["blocks"] for c in (b["classdef"] or []) for n in c} | \
-           {g for b in fc["blocks"] for g, _ in (b["carets"] or [])} | {n for p in fc["gsub"] for n in p} | set(keep)
+           {g for b in fc["blocks"] for g, _ in (b["carets"] or [])} | {n for p in fc["gsub"] for n in p} | set(keep) | \
+           {n for r in (fc.get("gsubx") or []) for n in _rule_need(r) + list(r["out"])}
+    gx = fc.get("gsubx") or []
+    for i in range(len(gx)):
+        yield dict(fc, gsubx=gx[:i] + gx[i + 1:])
     for key in ("gsub", "blocks"):
         if fc[key]:
             yield dict(fc, **{key: []})
@@ -1100,14 +1250,22 @@ LEVEL_TEXT = ("Proved for all inputs (Lean, unbounded glyph sets / anchor lists 
               "take in every master exactly that master's rounded caret coordinates, ordered by the first master; every glyph with an entry or exit anchor of a "
               "present pair has its record with exactly the rounded coordinates and NULL for the missing side, in a lookup whose RightToLeft "
               "flag follows the suffix/LTR rule, where a glyph is left-to-right iff it is in the GSUB-closed left-to-right set or a designspace "
-              "rule substitutes it for a glyph of that set (one step; C18_ltr_extras, C18_curs_flag), with no other records and one record per "
+              "rule substitutes it for a glyph of that set (one step; C18_ltr_extras, C18_curs_flag), and the GSUB-closed left-to-right set itself "
+              "(classifyDir, model of util.classifyGlyphs over an abstract rule list) contains the encoded left-to-right glyphs, is closed under "
+              "every rule whose input and context glyphs are left-to-right OR script-neutral, holds no neutral-only glyph and nothing that no "
+              "applicable rule produces (C18_dir_set, given that the closure rounds reached their fixed point, which the driver checks per "
+              "input), with no other records and one record per "
               "(pair, glyph); writer instances used for a sequence of fonts give every font the output of a fresh build of that font "
               "(C18_seq, C18_seq_independent); quantize returns the nearest multiple (ties up).  Tied to the code by random fonts compiled "
               "end to end (single UFOs, sequences sharing writer instances, interpolatable masters, designspaces with rules) and read back "
               "from GDEF/GPOS and the feature text.")
 LEVEL_NOTE = ("Trusted: Lean kernel + standard axioms; the correspondence harness and fontTools' decompilers/feaLib parser; direction data "
               "(LTR code points, GSUB closure) is an input taken from ufo2ft's own classifyGlyphs called without rule substitutions - the "
-              "rule step itself is modelled and proved; feaLib's compilation of the emitted statements is modelled and measured, not proved; "
+              "rule step itself is modelled and proved - EXCEPT in the neutral-context stream, where the closure is the model's own "
+              "(classifyDir over the rules the harness wrote; fontTools' subsetter is external: that its closure of the compiled GSUB is the "
+              "rule closure is observed there, predicate holdsDirSet evaluated by the Lean driver on the sets ufo2ft returned, not proved); a "
+              "defect of classifyGlyphs' GSUB step outside the generated rule shapes (reverse-chaining, class-based contexts, alternates, "
+              "feature-variation lookups) would not be seen; feaLib's compilation of the emitted statements is modelled and measured, not proved; "
               "static compilation is modelled (single UFOs and the per-master fonts of compileInterpolatable*) plus, of variable feature "
               "compilation, the ligature carets only (varcarets stream; the VariableScalar anchors of the curs writer are not).  That a writer instance carries nothing but its options from one write() to "
               "the next is the model's reading of BaseFeatureWriter.write (runSeq) and is measured, per font, on every multi-font case; "
